@@ -2,7 +2,7 @@
 import z3
 
 from .values import *   # noqa
-from .interp import PyRaise
+from .interp import PathEnd, PyRaise
 from . import natives as N
 
 
@@ -373,6 +373,31 @@ def bytes_method(ex, b, name, args, kwargs):
         ex.assume(mk_bool(N.zlen(r) <= N.zlen(b)))
         ex.ghost['havocked'] = True
         return r
+    if name == 'split' and not args and not kwargs:
+        # whitespace split of symbolic octets, exact but BOUNDED: the length must have a small concrete upper bound
+        # (the path forks over the length and over "is this octet white space" for every position)
+        n = b.concrete_len()
+        if n is None:
+            for cand in range(9):
+                if ex.branch(mk_bool(N.zlen(b) == cand)):
+                    n = cand
+                    break
+            if n is None:
+                raise Unsupported('bytes.split() on symbolic bytes that may be longer than 8 octets')
+        snap = N.snapshot(b)
+        parts, start = [], None
+        for i in range(n):
+            t = N._z(snap.at(i))
+            ws = ex.branch(mk_bool(z3.Or(t == 32, z3.And(t >= 9, t <= 13))))
+            if ws:
+                if start is not None:
+                    parts.append(N.bytes_slice(ex, snap, slice(start, i, None), b.mutable))
+                    start = None
+            elif start is None:
+                start = i
+        if start is not None:
+            parts.append(N.bytes_slice(ex, snap, slice(start, n, None), b.mutable))
+        return SList(parts)
     raise Unsupported('bytes.%s on symbolic bytes' % name)
 
 
